@@ -51,6 +51,16 @@ func (ts *treeStorage) IsRegistered(id TreeID) bool {
 	return ok
 }
 
+// IsRequested returns true when the tree has been registered but
+// not received yet
+func (ts *treeStorage) IsRequested(id TreeID) bool {
+	ts.Lock()
+	defer ts.Unlock()
+
+	tree, ok := ts.trees[id]
+	return ok && tree == nil
+}
+
 // Get returns the tree if it exists or nil
 func (ts *treeStorage) Get(id TreeID) *Tree {
 	ts.Lock()
